@@ -32,8 +32,10 @@ const (
 )
 
 const (
-	ImplWheel = 0
-	ImplHeap  = 1
+	ImplWheel     = 0
+	ImplHeap      = 1
+	ImplLiveWheel = 2 // live-worker scenario (see Live)
+	ImplLiveHeap  = 3
 )
 
 // MaxTicksPerStep bounds the work of one worker tick step of the wheel.
@@ -210,9 +212,137 @@ func init() {
 	}()
 }
 
+// Live runs the scheduler's REAL worker goroutine (wall-clock ticker, 1 ms): n one-shot
+// timers with delay 0 are started while nobody reads Chan(); when the worker is stuck
+// delivering (channel full) or everything has been decided, every id is cancelled; then
+// Chan() is drained until the scheduler is quiet.  The result only counts, so the verdict
+// does not depend on timing: (started delivered cancelled-true both neither final-size).
+func Live(impl int64, n int) Sx {
+	sched.VerifNow = nil // wall clock
+	var t sched.Timer
+	if impl == ImplLiveWheel {
+		t = sched.NewHHWheelTimer(time.Millisecond, time.Millisecond)
+	} else {
+		t = sched.NewTimerQueue(time.Millisecond, time.Millisecond)
+	}
+	t.Start()
+	ch := t.Chan()
+	type rec struct {
+		id        int
+		job       *Job
+		cancelled bool
+	}
+	recs := make([]*rec, n)
+	var issuedN int64
+	feeder := make(chan struct{})
+	go func() { // the start calls block once 128 requests are queued and the worker is stuck
+		defer close(feeder)
+		for i := 0; i < n; i++ {
+			j := &Job{Ord: int64(i + 1)}
+			recs[i] = &rec{job: j, id: t.RunAfter(0, j)}
+			atomic.StoreInt64(&issuedN, int64(i+1))
+			atomic.AddInt64(&progress, 1)
+		}
+	}()
+	// wait until the delivery channel is full, or all timers are started and the worker
+	// had time to look at them (either way the verdict below is a count)
+	deadline := time.Now().Add(3 * time.Second)
+	started := false
+	for time.Now().Before(deadline) {
+		if len(ch) == cap(ch) {
+			break
+		}
+		select {
+		case <-feeder:
+			started = true
+		default:
+		}
+		if started && t.Size() == 0 {
+			break
+		}
+		time.Sleep(time.Millisecond)
+	}
+	time.Sleep(20 * time.Millisecond)
+	// cancel every id handed out so far while the consumer is still absent
+	issued := int(atomic.LoadInt64(&issuedN))
+	delivered := map[int64]int{}
+	drainSome := func(limit time.Duration) {
+		end := time.Now().Add(limit)
+		for time.Now().Before(end) {
+			select {
+			case r := <-ch:
+				delivered[r.(*Job).Ord]++
+				end = time.Now().Add(limit)
+			default:
+				time.Sleep(time.Millisecond)
+			}
+		}
+	}
+	// (the cancel calls block too once 128 cancel requests are queued behind the stuck
+	// worker: they run on their own goroutine and go on while the consumer drains)
+	var cancelN int64
+	cancels := make(chan struct{})
+	go func() {
+		defer close(cancels)
+		for i := 0; i < issued; i++ {
+			recs[i].cancelled = t.Cancel(recs[i].id)
+			atomic.StoreInt64(&cancelN, int64(i+1))
+			atomic.AddInt64(&progress, 1)
+		}
+	}()
+	// let the cancels run as far as they get without a consumer
+	for last, since := int64(-1), time.Now(); time.Since(since) < 50*time.Millisecond; {
+		if c := atomic.LoadInt64(&cancelN); c != last {
+			last, since = c, time.Now()
+		}
+		if int(atomic.LoadInt64(&cancelN)) == issued {
+			break
+		}
+		time.Sleep(time.Millisecond)
+	}
+	// the consumer arrives: drain; feeder and canceller finish; the late ones are due at once
+	waitBoth := make(chan struct{})
+	go func() { <-feeder; <-cancels; close(waitBoth) }()
+	for done := false; !done; {
+		drainSome(30 * time.Millisecond)
+		select {
+		case <-waitBoth:
+			done = true
+		default:
+		}
+	}
+	end := time.Now().Add(20 * time.Second)
+	for t.Size() != 0 && time.Now().Before(end) {
+		drainSome(20 * time.Millisecond)
+	}
+	drainSome(100 * time.Millisecond)
+	size := t.Size()
+	var nDelivered, nCancelled, both, neither int64
+	for _, r := range recs {
+		d := delivered[r.job.Ord]
+		if d > 0 {
+			nDelivered++
+		}
+		if r.cancelled {
+			nCancelled++
+		}
+		switch {
+		case d > 0 && r.cancelled, d > 1:
+			both++
+		case d == 0 && !r.cancelled:
+			neither++
+		}
+	}
+	t.Shutdown()
+	return Ints(int64(n), nDelivered, nCancelled, both, neither, int64(size))
+}
+
 // Run executes the history of `in` = (impl cur0 tt0 (op ...)) and returns (obs ...).
 func Run(in Sx) Sx {
 	impl := in.At(0).Int64()
+	if impl == ImplLiveWheel || impl == ImplLiveHeap {
+		return Live(impl, int(in.At(1).Int64()))
+	}
 	x := &exec{d: NewDriver(impl, in.At(1).Uint64(), in.At(2).Int64())}
 	x.tm = x.d.Timer()
 	ops := in.At(3)
